@@ -1611,8 +1611,14 @@ async fn emit_event(
     buffer: &Arc<Mutex<Vec<Event>>>,
     event_log: &EventLog,
 ) {
+    #[cfg(rip_verif)]
+    rip_kernel::verif::point("emit.publish");
     let _ = sender.send(event.clone());
+    #[cfg(rip_verif)]
+    rip_kernel::verif::point("emit.lock");
     let mut guard = buffer.lock().await;
+    #[cfg(rip_verif)]
+    rip_kernel::verif::point("emit.record");
     guard.push(event.clone());
     let _ = event_log.append(&event);
 }
@@ -2901,6 +2907,16 @@ data: [DONE]\n\n";
 #[cfg(rip_verif)]
 pub mod verif_hooks {
     use super::*;
+
+    /// The real `emit_event` on caller-supplied channel, buffer and log.
+    pub async fn emit_event_raw(
+        event: Event,
+        sender: &broadcast::Sender<Event>,
+        buffer: &Arc<Mutex<Vec<Event>>>,
+        event_log: &EventLog,
+    ) {
+        emit_event(event, sender, buffer, event_log).await;
+    }
 
     /// Feeds byte chunks through a real `OpenResponsesSsePipe` exactly as the read loop of
     /// `stream_openresponses_request` does (stop at the first chunk that reports `[DONE]`,
